@@ -12,6 +12,7 @@ import AspireModel.Model.Transforms
 import AspireModel.Model.Session
 import AspireModel.Model.Dtype
 import AspireModel.Model.Codec
+import AspireModel.Model.CodecSamples
 import AspireModel.ErfFloat
 /-
   Pure part of the line-protocol driver: one request line in, one reply line out.
@@ -570,6 +571,15 @@ def opCodec : P String := do
   | .dict es => pure (outVal (.dict (loadDict (saveDict es))))
   | .leaf _ => throw "top level must be a dictionary"
 
+/-- `samplecols <parameters> <listed entries>`: the sample columns as `from_dict` rebuilds them from a "samples" dictionary listed in
+    some order (each listed entry carries the id of its column) -/
+def opSampleCols : P String := do
+  let params ← listOf hexStr
+  let listed ← listOf (do let k ← hexStr; let i ← nat; pure (k, Val.leaf (Leaf.nums [i])))
+  match colsByName listed params with
+  | some cs => pure ("some " ++ " ".intercalate (cs.map fun c => toString (c.headD 0)))
+  | none => pure "none"
+
 def dispatch (op : String) : P String :=
   match op with
   | "weights" => opWeights (α := α)
@@ -598,6 +608,7 @@ def dispatch (op : String) : P String :=
   | "session" => opSession
   | "conv" => opConv
   | "codec" => opCodec
+  | "samplecols" => opSampleCols
   | _ => throw s!"unknown op {op}"
 
 end Driver
